@@ -1311,6 +1311,7 @@ func (eval Evaluator) RotateHoistedLazyNew(level int, rotations []int, ct *rlwe.
 	for _, i := range rotations {
 		if i != 0 {
 			cOut[i] = rlwe.NewElementExtended(eval.GetParameters(), 1, level, eval.GetParameters().MaxLevelP())
+			cOut[i].IsNTT = ct.IsNTT // the result is computed (and returned) in the domain of the input
 			if err = eval.AutomorphismHoistedLazy(level, ct, c2DecompQP, eval.GetParameters().GaloisElement(i), cOut[i]); err != nil {
 				return nil, fmt.Errorf("cannot RotateHoistedLazyNew: %w", err)
 			}
